@@ -286,7 +286,7 @@ def main():
         sigmas = {}
         for nd in nodes:
             if cc.needs_sigma(nd.cname):
-                sigmas[nd.name] = Fr(float(numpy.ma.std(obs[nd.refs[0].name])))
+                sigmas[nd.name] = cc.sigma_oracle(obs[nd.refs[0].name])
         ref = reference(nodes, sigmas)
         bad = []
         for nd in nodes:
